@@ -160,6 +160,15 @@ pub fn check_automaton(rep: &mut Report, auto: &mut Automaton, origin: &str, kin
             }
         }
     }
+    if cr.len() <= 40 {
+        let mut prng = Rng::new(seed ^ 0x14);
+        let before = rep.violation_count;
+        super::c11::check_partition(rep, &cr, &comb, "combined_char_partition", seed, false, &mut prng);
+        rep.inc("combined_partitions_queried_like_any_partition");
+        if rep.violation_count > before {
+            return false;
+        }
+    }
     let alpha = match guard(|| auto.pick_alphabet()) {
         Ok(a) => a,
         Err(m) => bad!("alphabet", "pick_alphabet() panicked: {}", m),
